@@ -326,6 +326,7 @@ def _p_mixed(x):
 FUNCS.update({
     'k_mixed': _k_mixed,
     'k_falsy': lambda x: [0, '', (), None, 'x'][x % 10 % 5],          # four distinct falsy key values
+    'k_bool': lambda x: [True, 1, 1.0, False, 0.0][x % 10 % 5],          # True == 1 == 1.0 and False == 0.0: two groups, five spellings
     'p_mixed': _p_mixed,
     'p_big': lambda x: 10 ** 20 + (x % 10),
     'p_hash': lambda x: [-1, -2, 5 + (2 ** 61 - 1), 5][x % 10 % 4],            # distinct values, pairwise equal hashes
